@@ -324,6 +324,52 @@ Snap(S) ==
      gt |-> [i \in 1..2 |-> NSubs(S, U[i]) > 0 \/ (Has(S, "gtCountsRelays") /\ NRel(S, U[i]) > 0)]]
 
 ----------------------------------------------------------------------------
+(* named validator variants, prologues and the compact encoding of operations used by the scenario generators *)
+V(v, inl, to, conc) == [v |-> v, inl |-> inl, to |-> to, conc |-> conc]
+ValDef(n) ==
+    CASE n = "accept" -> V("accept", FALSE, 0, 0)
+      [] n = "reject" -> V("reject", FALSE, 0, 0)
+      [] n = "ignore" -> V("ignore", FALSE, 0, 0)
+      [] n = "bad" -> V("bad", FALSE, 0, 0)
+      [] n = "acceptInl" -> V("accept", TRUE, 0, 0)
+      [] n = "rejectInl" -> V("reject", TRUE, 0, 0)
+      [] n = "rejectTo" -> V("reject", FALSE, 300, 0)
+      [] n = "acceptTo" -> V("accept", FALSE, 700, 3)
+      [] n = "block1" -> V("block", FALSE, 0, 1)
+      [] n = "block2" -> V("block", FALSE, 0, 2)
+
+J(t, jo) == [D EXCEPT !.o = "join", !.t = t, !.opt = jo]
+ProDef(n) ==
+    CASE n = "none" -> <<>>
+      [] n = "joinA" -> <<J("A", "")>>
+      [] n = "joinAB" -> <<J("A", ""), J("B", "")>>
+      [] n = "closedA" -> <<J("A", ""), [D EXCEPT !.o = "close", !.h = 1]>>
+      [] n = "rejoinA" -> <<J("A", ""), [D EXCEPT !.o = "close", !.h = 1], J("A", "")>>
+      [] n = "subA1" -> <<J("A", ""), [D EXCEPT !.o = "sub", !.h = 1, !.cap = 1]>>
+      [] n = "subA12" -> <<J("A", ""), [D EXCEPT !.o = "sub", !.h = 1, !.cap = 1], [D EXCEPT !.o = "sub", !.h = 1, !.cap = 2]>>
+      [] n = "hiddenA" -> <<[D EXCEPT !.o = "psub", !.t = "A"]>>
+      [] n = "fanA" -> <<J("A", "fan")>>
+      [] n = "relayA" -> <<J("A", ""), [D EXCEPT !.o = "relay", !.h = 1]>>
+      [] n = "KA" -> <<J("A", "K")>>
+      \* concurrent level
+      [] n = "busyA" -> <<J("A", ""), [D EXCEPT !.o = "sub", !.h = 1, !.cap = 1], [D EXCEPT !.o = "sub", !.h = 1, !.cap = 2],
+                          [D EXCEPT !.o = "relay", !.h = 1], [D EXCEPT !.o = "relay", !.h = 1], [D EXCEPT !.o = "evh", !.h = 1]>>
+      [] n = "oneEach" -> <<J("A", ""), [D EXCEPT !.o = "sub", !.h = 1, !.cap = 1], [D EXCEPT !.o = "relay", !.h = 1], [D EXCEPT !.o = "evh", !.h = 1]>>
+      [] n = "sub1" -> <<J("A", ""), [D EXCEPT !.o = "sub", !.h = 1, !.cap = 1]>>
+      [] n = "relay1" -> <<J("A", ""), [D EXCEPT !.o = "relay", !.h = 1]>>
+      [] n = "evh1" -> <<J("A", ""), [D EXCEPT !.o = "evh", !.h = 1]>>
+      [] n = "released" -> <<J("A", ""), [D EXCEPT !.o = "sub", !.h = 1, !.cap = 2], [D EXCEPT !.o = "relay", !.h = 1], [D EXCEPT !.o = "relay", !.h = 1],
+                             [D EXCEPT !.o = "pub", !.h = 1, !.m = "m0"], [D EXCEPT !.o = "cancel", !.s = 1], [D EXCEPT !.o = "unrelay", !.r = 1]>>
+      [] n = "twoGen" -> <<J("A", ""), [D EXCEPT !.o = "close", !.h = 1], J("A", ""), [D EXCEPT !.o = "sub", !.h = 2, !.cap = 1]>>
+
+\* compact encoding of an operation (python turns it back into a record; defaults are dropped)
+B(b) == IF b THEN "1" ELSE "0"
+Enc(o) == o.o \o "|" \o o.t \o "|" \o ToString(o.h) \o "|" \o ToString(o.s) \o "|" \o ToString(o.r) \o "|" \o ToString(o.e) \o "|"
+          \o ToString(o.cap) \o "|" \o o.m \o "|" \o o.mode \o "|" \o o.v \o "|" \o B(o.inl) \o "|" \o ToString(o.to) \o "|"
+          \o ToString(o.conc) \o "|" \o o.opt \o "|" \o o.p \o "|" \o B(o.pv)
+
+
+----------------------------------------------------------------------------
 (* Structural invariants of the machine (checked by MCTopicApi on every reachable state) *)
 I_RegisteredOpen == TRUE
 Inv(S) ==
